@@ -58,7 +58,8 @@ def decode_slot(arr):
 def mem(detector, inc=1.0, lst=None, dct=None):
     """A model that keeps memory on the detector (`_memory`: a counter, a history list and a trapped-charge-like
     array updated *in place*; the trapped charge of `detector.persistence` if present, also in place) and mutates
-    its own mutable arguments (appends to `lst`, counts in `dct`).  The values it writes into `pixel` and `signal`
+    its own mutable arguments (appends to `lst` - or, for a nested list, changes an inner row in place, for an array
+    doubles it in place - and counts in `dct`).  The values it writes into `pixel` and `signal`
     depend on all of that, so any leak of state between runs or into the caller's objects is visible in the result."""
     name = detector.current_running_model_name
     m = detector._memory
@@ -73,7 +74,16 @@ def mem(detector, inc=1.0, lst=None, dct=None):
         arr = detector.persistence.trapped_charge_array
         arr += float(inc) * 0.5                      # in place
         pers = float(arr.sum())
-    if lst is not None:
+    if isinstance(lst, np.ndarray):
+        seen = [float(x) for x in lst.ravel()]       # what this call received ...
+        lst *= 2.0                                   # ... then the array argument is changed in place
+        lst = seen
+    elif lst is not None and len(lst) and isinstance(lst[0], (list, tuple)):
+        seen = [float(x) for row in lst for x in row]
+        if isinstance(lst[0], list):
+            lst[0][0] = 2.0 * lst[0][0] + float(inc)  # an inner row of a nested list changed in place
+        lst = seen
+    elif lst is not None:
         lst.append(float(inc) + len(lst))
     if dct is not None:
         dct["n"] = dct.get("n", 0) + 1
